@@ -112,6 +112,50 @@ static void diffJson(const json &exp, const json &act, const std::string &path, 
     --budget;
 }
 
+// Property-specific comparison: a check compares only the observers its property speaks of
+// (plan.obs_fields / plan.state_fields; absent = all) and only the internal-consistency
+// topics that belong to it (plan.topics; absent = all).
+struct Restrict {
+    bool allObs = true, allState = true, allTopics = true;
+    std::vector<std::string> obs, state, topics;
+    explicit Restrict(const json &plan) {
+        if (plan.contains("obs_fields")) {
+            allObs = false;
+            obs = plan.at("obs_fields").get<std::vector<std::string>>();
+        }
+        if (plan.contains("state_fields")) {
+            allState = false;
+            state = plan.at("state_fields").get<std::vector<std::string>>();
+        }
+        if (plan.contains("topics")) {
+            allTopics = false;
+            topics = plan.at("topics").get<std::vector<std::string>>();
+        }
+    }
+    json pick(const json &o, bool all, const std::vector<std::string> &fields) const {
+        json r = json::object();
+        if (all) {
+            r = o;
+            r.erase("inconsistent");
+        } else
+            for (auto &f : fields)
+                if (o.contains(f))
+                    r[f] = o[f];
+        if (o.contains("inconsistent") && o["inconsistent"].is_object()) {
+            json inc = json::object();
+            for (auto it = o["inconsistent"].begin(); it != o["inconsistent"].end(); ++it)
+                if (allTopics || it.key() == "threw" ||
+                    std::find(topics.begin(), topics.end(), it.key()) != topics.end())
+                    inc[it.key()] = it.value();
+            if (!inc.empty())
+                r["inconsistent"] = inc;
+        }
+        return r;
+    }
+    json ofObs(const json &o) const { return pick(o, allObs, obs); }
+    json ofState(const json &o) const { return pick(o, allState, state); }
+};
+
 struct Rep {
     std::vector<std::unique_ptr<IObj>> objs; // one per family of the group
     std::shared_ptr<Hist> hist;
@@ -145,6 +189,8 @@ static int walk(const json &plan) {
     const std::string replayDir = plan.value("replay_dir", std::string("."));
     const std::string tag = plan.value("tag", group);
     const bool checkEq = plan.value("check_eq", true);
+    const bool checkValid = plan.value("check_valid", true); // false: only rejected calls are judged (C07)
+    const Restrict rs(plan);
     installCrashNote(plan.value("crash_note", std::string()));
 
     auto &facs = registry()[group];
@@ -220,16 +266,23 @@ static int walk(const json &plan) {
                 std::unique_ptr<IObj> o = rep.objs[fam]->clone();
                 json before = (expOut != "ok") ? o->exact() : json();
                 std::string out = o->apply(call);
-                json obs = o->project();
-                json enc = o->enc();
+                json obs = rs.ofObs(o->project());
+                json enc = rs.ofState(o->enc());
+                const json expObs = rs.ofObs(tr.at("obs")), expEnc = rs.ofState(tr.at("to"));
                 std::string why;
-                if (out != expOut)
+                if (!checkValid && expOut == "ok")
+                    ; // a valid call in a rejected-calls scenario: executed to reach the next state only
+                else if (out != expOut)
                     why = "outcome: expected " + expOut + ", got " + out;
-                else if (enc != tr.at("to") || obs != tr.at("obs")) {
+                else if (!checkValid)
+                    why = (o->exact() != before)
+                              ? "rejected call changed the object: " + before.dump() + " -> " + o->exact().dump()
+                              : "";
+                else if (enc != expEnc || obs != expObs) {
                     json d = json::array();
                     int budget = 8;
-                    diffJson(tr.at("to"), enc, "state", d, budget);
-                    diffJson(tr.at("obs"), obs, "obs", d, budget);
+                    diffJson(expEnc, enc, "state", d, budget);
+                    diffJson(expObs, obs, "obs", d, budget);
                     why = "observers differ: " + d.dump();
                 } else if (expOut != "ok" && o->exact() != before)
                     why = "rejected call changed the object: " + before.dump() + " -> " + o->exact().dump();
@@ -385,15 +438,22 @@ static int walkpair(const json &plan) {
                     if (out != "ok")
                         why = "call outcome " + out;
                 }
-                json ex = x->enc(), ey = y->enc();
                 bool e12 = x->equals(*y), e21 = y->equals(*x), e11 = x->equals(*x), e22 = y->equals(*y);
-                const json &eq = tr.at("eq");
-                if (why.empty() && (ex != tr.at("to")[0] || ey != tr.at("to")[1]))
-                    why = "states differ: expected " + tr.at("to").dump() + " got " + json::array({ex, ey}).dump();
-                else if (why.empty() && (e12 != eq.at("e12").get<bool>() || e21 != eq.at("e21").get<bool>() ||
-                                         e11 != eq.at("e11").get<bool>() || e22 != eq.at("e22").get<bool>()))
-                    why = "operator== : expected " + eq.dump() + " got " +
-                          json({{"e12", e12}, {"e21", e21}, {"e11", e11}, {"e22", e22}}).dump();
+                // C06's oracle is the pair of graphs the two REAL objects show through the public
+                // API (same vertices, same edges, equal attributes) - not the specification's
+                // states, so a defect in some mutator is not reported as a defect of operator==
+                const bool same = x->abstractGraph() == y->abstractGraph();
+                json eq = {{"e12", same}, {"e21", same}, {"e11", true}, {"e22", true}};
+                if (!why.empty())
+                    why.clear(); // (a mutator's outcome is not C06's business)
+                if (e12 != same || e21 != same || !e11 || !e22)
+                    why = "operator== : the two objects show " + std::string(same ? "the same graph" : "different graphs") +
+                          " but == gives " + json({{"e12", e12}, {"e21", e21}, {"e11", e11}, {"e22", e22}}).dump() +
+                          "; a = " + x->abstractGraph().dump() + " b = " + y->abstractGraph().dump();
+                else if (isCopy && !same)
+                    why = "a copy does not equal its source";
+                else if (!isCopy && (act.at("obj") == 1 ? y->exact() != rep.b[fam]->exact() : x->exact() != rep.a[fam]->exact()))
+                    why = "a call on one object changed the other one (copies are not independent)";
                 else if (why.empty() && (x->differs(*y) == e12 || y->differs(*x) == e21 || x->differs(*x) == e11))
                     why = "operator!= is not the negation of operator==";
                 if (!why.empty()) {
@@ -478,6 +538,7 @@ static int record(const json &plan) {
     const int maxCopies = plan.value("max_copies", 3);
     const int multCap = plan.value("mult_cap", 0);
     installCrashNote(plan.value("crash_note", std::string()));
+    const Restrict rs(plan);
     auto &facs = registry()[group];
     if (famIdx >= facs.size()) {
         std::cerr << "bad family index\n";
@@ -645,7 +706,7 @@ static int record(const json &plan) {
             std::string out = o->apply(c);
             hist.push_back(c);
             n = (int)o->enc()["n"].get<int>();
-            os << json({{"c", c}, {"out", out}, {"obs", o->project()}}).dump() << "\n";
+            os << json({{"c", c}, {"out", out}, {"obs", rs.ofObs(o->project())}}).dump() << "\n";
             ++events;
         }
     }
